@@ -50,6 +50,21 @@ impl Drop for Big {
                         }
                         unsafe { crate::alloc::_exit(42) };
                     }
+                } else if act == 3 {
+                    // `a.clone_from(&b)` where a and b are two handles to the same dying member
+                    // (a is a bitwise alias that is never dropped): a clone by another door
+                    for h in slots.iter() {
+                        let mut a = std::mem::ManuallyDrop::new(unsafe { std::ptr::read(h) });
+                        (*a).clone_from(h);
+                        let line = format!("{{\"type\":\"dead-clone-returned\",\"ord\":{ord},\"id\":{},\"target\":{},\"strong\":{}}}\n", self.id, h.id, Rc::strong_count(h));
+                        unsafe {
+                            extern "C" {
+                                fn write(fd: i32, buf: *const u8, n: usize) -> isize;
+                            }
+                            write(1, line.as_ptr(), line.len());
+                        }
+                        unsafe { crate::alloc::_exit(42) };
+                    }
                 } else {
                     while let Some(h) = slots.pop() {
                         drop(h);
